@@ -210,6 +210,8 @@ func runC19(c *Ctx) {
 	ruleForwardUnconditional(c, p, "C19.forward-always")
 	ruleLostReceiverWrite(c, p, "C19.receiver")
 	ruleReflectConst(c, p, "C19.reflect-name")
+	ruleQuoteStrip(c, p, "C19.quote-strip")
+	ruleDecimalParseUnconditional(c, p, "C19.decimal-parse")
 	ruleInferNoSharedState(c, p, "C19.shared-state")
 	ruleConfigParsed(c, p, "C19.config")
 	ruleSliceOrder(c, p, "C19.slices")
@@ -1808,5 +1810,283 @@ func ruleWrapperInferTotal(c *Ctx, p *core.Program, rule string) {
 		}
 	}
 	c.R.Count("single-inner wrapper columns", n)
+	c.R.Floor(rule, cfg, n, 1)
+}
+
+// ruleQuoteStrip (C19 / C06): stripping one leading and one trailing byte needs two bytes.
+func ruleQuoteStrip(c *Ctx, p *core.Program, rule string) {
+	c.R.Rule(rule, "in the functions reachable from the Infer methods of package proto, a string slice s[L : len(s)-M] with constant L, M >= 1 (cutting a surrounding pair of quotes or brackets) is reachable only through a comparison that puts len(s) at L+M or more: `n > 0 && s[0] == q && s[n-1] == q` holds for the one-byte string consisting of the quote itself, and s[1:0] panics - a type string such as DateTime(') crashes inference")
+	cfg := p.Cfg.Name
+	seen := map[*ssa.Function]bool{}
+	var fns []*ssa.Function
+	for _, fn := range p.Funcs() {
+		if pkgOf(fn) == nil || pkgOf(fn).Path() != core.PkgProto || fn.Name() != "Infer" || fn.Blocks == nil {
+			continue
+		}
+		for g := range core.StaticReach(fn, 3) {
+			if g.Blocks != nil && pkgOf(g) != nil && pkgOf(g).Path() == core.PkgProto && !seen[g] {
+				seen[g] = true
+				fns = append(fns, g)
+			}
+		}
+	}
+	sort.Slice(fns, func(i, j int) bool { return fns[i].Pos() < fns[j].Pos() })
+	n := 0
+	for _, fn := range fns {
+		for _, b := range fn.Blocks {
+			for _, in := range b.Instrs {
+				sl, ok := in.(*ssa.Slice)
+				if !ok || sl.Low == nil || sl.High == nil {
+					continue
+				}
+				if bt, isB := sl.X.Type().Underlying().(*types.Basic); !isB || bt.Info()&types.IsString == 0 {
+					continue
+				}
+				lo, okl := core.ConstInt(sl.Low)
+				hb, okh := sl.High.(*ssa.BinOp)
+				if !okl || lo < 1 || !okh || hb.Op != token.SUB {
+					continue
+				}
+				m, okm := core.ConstInt(hb.Y)
+				isLenOfX := func(v ssa.Value) bool {
+					cl, ok := stripConv(v).(*ssa.Call)
+					if !ok {
+						return false
+					}
+					bi, ok := cl.Call.Value.(*ssa.Builtin)
+					return ok && bi.Name() == "len" && cl.Call.Args[0] == sl.X
+				}
+				if !okm || m < 1 || !isLenOfX(hb.X) {
+					continue
+				}
+				n++
+				key := core.FuncName(fn) + sprintf("/strip#%d", n)
+				need := lo + m
+				enough := core.CondEdges(fn, true, func(cond ssa.Value) (bool, bool) {
+					bo, ok := cond.(*ssa.BinOp)
+					if !ok {
+						return false, false
+					}
+					k, isC := core.ConstInt(bo.Y)
+					if !isC || !isLenOfX(bo.X) {
+						return false, false
+					}
+					switch bo.Op {
+					case token.GEQ:
+						return true, k >= need
+					case token.GTR:
+						return true, k >= need-1
+					case token.LSS:
+						return false, k >= need
+					case token.LEQ:
+						return false, k >= need-1
+					}
+					return false, false
+				})
+				if len(enough) > 0 && core.OnlyViaEdges(fn, sl, enough) {
+					c.R.Ok(rule, key, cfg, p.Pos(sl.Pos()), sprintf("behind len >= %d", need))
+				} else {
+					c.R.Bad(rule, key, cfg, p.Pos(sl.Pos()), sprintf("s[%d:len(s)-%d] is evaluated without len(s) >= %d having been established: a string of %d byte(s) panics (slice bounds out of range)", lo, m, need, need-1))
+				}
+			}
+		}
+	}
+	if n == 0 {
+		c.R.Ok(rule, "Infer", cfg, "", sprintf("%d functions behind Infer methods, none cuts both ends of a string by constants", len(fns))).Trivial = true
+	}
+	c.R.Count("functions behind Infer methods (quote strip)", len(fns))
+	c.R.Floor(rule, cfg, len(fns), 15)
+}
+
+// ruleDecimalParseUnconditional (C19): the precision of Decimal(P) is parsed whether or not a scale follows.
+func ruleDecimalParseUnconditional(c *Ctx, p *core.Program, rule string) {
+	c.R.Rule(rule, "where package proto parses the precision of a Decimal type (strconv.Atoi on the part of the parameter list before the comma, in ColAuto.Infer and ColumnType.decimalDowncast or their helpers), the parse is not control-dependent on the `found` result of strings.Cut: found means `there was a comma`, i.e. a scale was given - the legal one-parameter form Decimal(P) would keep the default precision and every Decimal(P) would be inferred as a 64-bit column")
+	cfg := p.Cfg.Name
+	n := 0
+	for _, root := range []*ssa.Function{p.Method(core.PkgProto, "ColAuto", "Infer"), p.Method(core.PkgProto, "ColumnType", "decimalDowncast")} {
+		if root == nil {
+			continue
+		}
+		for fn := range core.StaticReach(root, 1) {
+			if fn.Blocks == nil || pkgOf(fn) == nil || pkgOf(fn).Path() != core.PkgProto {
+				continue
+			}
+			for _, call := range core.Calls(fn) {
+				f := core.CalleeFunc(call)
+				if f == nil || f.Pkg() == nil || f.Pkg().Path() != "strconv" || f.Name() != "Atoi" {
+					continue
+				}
+				// only the Atoi fed from a strings.Cut
+				var cut *ssa.Call
+				core.DependsOn(call.Common().Args[0], func(x ssa.Value) bool {
+					if ex, ok := x.(*ssa.Extract); ok {
+						if cl, ok := ex.Tuple.(*ssa.Call); ok {
+							if g := core.CalleeFunc(cl); g != nil && g.Pkg() != nil && g.Pkg().Path() == "strings" && g.Name() == "Cut" {
+								cut = cl
+							}
+						}
+					}
+					return false
+				}, true)
+				if cut == nil {
+					continue
+				}
+				n++
+				key := core.CallKey(fn, call)
+				found := core.CondEdges(fn, true, func(cond ssa.Value) (bool, bool) {
+					v, pol := core.StripNot(cond)
+					ex, ok := v.(*ssa.Extract)
+					return pol, ok && ex.Tuple == ssa.Value(cut) && ex.Index == 2
+				})
+				if len(found) > 0 && core.OnlyViaEdges(fn, call.(ssa.Instruction), found) {
+					c.R.Bad(rule, key, cfg, p.Pos(call.Pos()), "the precision is parsed only when strings.Cut found a comma: Decimal(P) without a scale keeps the default precision")
+				} else {
+					c.R.Ok(rule, key, cfg, p.Pos(call.Pos()), "parsed whether or not a comma follows")
+				}
+			}
+		}
+	}
+	c.R.Count("Decimal precision parses", n)
+	c.R.Floor(rule, cfg, n, 2)
+}
+
+// ruleEchoedTypeValidated (C18): a column that reports the type text it was given has looked at it first.
+func ruleEchoedTypeValidated(c *Ctx, p *core.Program, rule string) {
+	c.R.Rule(rule, "for every column type of package proto whose Type() returns a stored ColumnType field that its Infer assigns from the type it is given (Enum reports the server's definition): that assignment is not reachable from the entry of Infer without crossing a test that depends on the given type (the base is checked, the definition parsed) - Results.DecodeResult calls Infer and then compares the block's type with the target's Type(); a target that echoes whatever it was told makes that comparison compare the block's type with itself, and a JSON target silently binds String, Int64 or Array columns")
+	cfg := p.Cfg.Name
+	n := 0
+	for _, ct := range columnTypes(p) {
+		if _, ok := ct.Underlying().(*types.Struct); !ok {
+			continue
+		}
+		tm, inf := methodOf(p, ct, "Type"), methodOf(p, ct, "Infer")
+		if tm == nil || inf == nil || tm.Blocks == nil || inf.Blocks == nil || len(inf.Params) < 2 || len(tm.Params) == 0 {
+			continue
+		}
+		// fields of type ColumnType that Type() can return
+		echoed := map[string]bool{}
+		for _, b := range tm.Blocks {
+			for _, in := range b.Instrs {
+				r, ok := in.(*ssa.Return)
+				if !ok || len(r.Results) != 1 {
+					continue
+				}
+				core.DependsOn(r.Results[0], func(x ssa.Value) bool {
+					switch y := x.(type) {
+					case *ssa.Field:
+						if core.IsNamed(y.Type(), core.PkgProto, "ColumnType") {
+							echoed[fieldNameOnly(y.X.Type(), y.Field)] = true
+						}
+					case *ssa.UnOp:
+						if fa, ok := y.X.(*ssa.FieldAddr); ok && y.Op == token.MUL && core.IsNamed(y.Type(), core.PkgProto, "ColumnType") {
+							echoed[fieldNameOnly(fa.X.Type(), fa.Field)] = true
+						}
+					}
+					return false
+				}, false)
+			}
+		}
+		if len(echoed) == 0 {
+			continue
+		}
+		tparam := inf.Params[1]
+		fromParam := func(v ssa.Value) bool {
+			return core.DependsOn(v, func(x ssa.Value) bool { return x == ssa.Value(tparam) }, true)
+		}
+		for _, b := range inf.Blocks {
+			for _, in := range b.Instrs {
+				st, ok := in.(*ssa.Store)
+				if !ok {
+					continue
+				}
+				fa, ok := st.Addr.(*ssa.FieldAddr)
+				if !ok || fa.X != ssa.Value(inf.Params[0]) || !echoed[fieldNameOnly(fa.X.Type(), fa.Field)] || !fromParam(st.Val) {
+					continue
+				}
+				n++
+				key := ct.Obj().Name() + ".Infer/" + fieldNameOnly(fa.X.Type(), fa.Field)
+				// edges of tests on the parameter (either side): the store must lie behind one
+				var tests []core.Edge
+				for _, tb := range inf.Blocks {
+					if ifi, ok := tb.Instrs[len(tb.Instrs)-1].(*ssa.If); ok && fromParam(ifi.Cond) {
+						tests = append(tests, core.Edge{B: tb, Succ: 0}, core.Edge{B: tb, Succ: 1})
+					}
+				}
+				// or a call that parses the type and can fail (e.parse(t)) with its error tested
+				if len(tests) == 0 {
+					for _, call := range core.Calls(inf) {
+						if ev := core.ErrValue(call); ev != nil {
+							uses := false
+							for _, a := range call.Common().Args {
+								if fromParam(a) {
+									uses = true
+								}
+							}
+							if !uses {
+								continue
+							}
+							al := core.Aliases(inf, ev)
+							for _, tb := range inf.Blocks {
+								if ifi, ok := tb.Instrs[len(tb.Instrs)-1].(*ssa.If); ok {
+									if _, ok := core.NilTest(ifi, al); ok {
+										tests = append(tests, core.Edge{B: tb, Succ: 0}, core.Edge{B: tb, Succ: 1})
+									}
+								}
+							}
+						}
+					}
+				}
+				if len(tests) > 0 && core.OnlyViaEdges(inf, st, tests) {
+					c.R.Ok(rule, key, cfg, p.Pos(st.Pos()), "the type is examined before it is adopted")
+				} else {
+					c.R.Bad(rule, key, cfg, p.Pos(st.Pos()), ct.Obj().Name()+".Infer adopts the given type text unexamined and Type() reports it back: the caller's compatibility check compares the block's type with itself")
+				}
+			}
+		}
+	}
+	c.R.Count("columns echoing an inferred type["+cfg+"]", n)
+	c.R.Floor(rule, cfg, n, 1)
+}
+
+// ruleAutoRecordsType (C18): the keep branch of ColAuto.Infer records the type it was asked for.
+func ruleAutoRecordsType(c *Ctx, p *core.Program, rule string) {
+	c.R.Rule(rule, "in ColAuto.Infer (or the helper of ColAuto that holds the `already compatible` branch) every success exit behind the compatible edge of the Conflicts test passes a store to DataType: ColAuto.Type() is the only place where the parameters of a held Decimal / Nullable / LowCardinality column live, so a branch that records the new type only for Inferable held columns keeps reporting the previous block's scale")
+	cfg := p.Cfg.Name
+	inf := p.Method(core.PkgProto, "ColAuto", "Infer")
+	if !c.must(p, "(*proto.ColAuto).Infer", inf != nil) {
+		return
+	}
+	n := 0
+	for fn := range core.StaticReach(inf, 1) {
+		if fn.Blocks == nil || core.RecvNamed2(fn) == nil || core.RecvNamed2(fn).Obj().Name() != "ColAuto" {
+			continue
+		}
+		compat := core.CondEdges(fn, false, func(cond ssa.Value) (bool, bool) {
+			_, ok := core.CallTo(cond, func(f *types.Func) bool { return core.IsMethod(f, core.PkgProto, "ColumnType", "Conflicts") })
+			return true, ok
+		})
+		for _, e := range compat {
+			n++
+			key := core.FuncName(fn) + "/keep"
+			start := core.Point{B: e.B.Succs[e.Succ], I: -1}
+			w := core.ReachAvoiding(start, func(in ssa.Instruction) bool {
+				r, ok := in.(*ssa.Return)
+				return ok && defaultSuccess(fn, r)
+			}, func(in ssa.Instruction) bool {
+				st, ok := in.(*ssa.Store)
+				if !ok {
+					return false
+				}
+				fa, ok := st.Addr.(*ssa.FieldAddr)
+				return ok && fieldNameOnly(fa.X.Type(), fa.Field) == "DataType"
+			}, nil)
+			if len(w) > 0 {
+				c.R.Bad(rule, key, cfg, p.Pos(w[0].At.Pos()), "the compatible branch can succeed without recording the requested type in DataType: Type() keeps the previous parameters", p.TrailString(w[0])...)
+			} else {
+				c.R.Ok(rule, key, cfg, p.Pos(e.B.Instrs[len(e.B.Instrs)-1].Pos()), "DataType is stored on every successful path of the compatible branch")
+			}
+		}
+	}
+	c.R.Count("compatible branches of ColAuto", n)
 	c.R.Floor(rule, cfg, n, 1)
 }
